@@ -365,9 +365,219 @@ def specVerdict (c : Case) (obs : List String) : String :=
     verdict (perCall.flatten ++ [("inner-call-count", ncalls == accepts)])
   | _ => "fail:unparseable-observation"
 
+/-! ### client kind: `Grpc<InterceptedService<Mock, F>>::server_streaming` -/
+
+/-- transport answer scripted per call: trailers-only headers and extensions -/
+abbrev CB := Bytes × (Hdrs × Ext)
+
+structure CCall where
+  originPrefix : Bytes
+  originPath : Bytes
+  originHasQuery : Bool
+  path : Bytes
+  userMd : Hdrs
+  ext : Ext
+  msg : Bytes
+  rhdrs : Hdrs
+  rext : Ext
+
+structure CCase where
+  scripts : List Script
+  calls : List CCall
+
+def pccall : P CCall := do
+  let pre ← pbytes
+  let op ← pbytes
+  let q ← pflag
+  let path ← pbytes
+  let h ← phdrs
+  let x ← pext
+  let m ← pbytes
+  let rh ← phdrs
+  let rx ← pext
+  pure { originPrefix := pre, originPath := op, originHasQuery := q, path := path, userMd := h, ext := x, msg := m, rhdrs := rh, rext := rx }
+
+def pccase : P CCase := do
+  let _kind ← next
+  let _via ← next
+  let ns ← pnat
+  let scripts ← rep pscript ns
+  let nc ← pnat
+  let calls ← rep pccall nc
+  pure { scripts := scripts, calls := calls }
+
+/-- gRPC Length-Prefixed-Message, uncompressed (what `EncodeBody` produces for one small message) -/
+def frame (m : Bytes) : Bytes := 0 :: (u32be m.length ++ m)
+
+def clientMock : Inner Nat CB Unit Nat := fun n r =>
+  (n + 1, .ok { status := 200, version := 2, headers := r.body.2.1, ext := r.body.2.2, body := () })
+
+def showClientResult : ClientResult → String
+  | .ok md x => s!"cok {showHdrs md} {showExt x}"
+  | .err st => s!"cerr {showStatus st}"
+  | .transport => "ctransport"
+  | .panic => "panic"
+  | .unmodelled => "unmodelled"
+
+def showSawC : Option (Request CB) → String
+  | none => "noinner"
+  | some r => s!"inner {hex r.method} {r.version} {hex r.uri} {showHdrs r.headers} {showExt r.ext} 1 {hex r.body.1} notr"
+
+/-- thread interceptor state (with its log) and transport state through the client calls -/
+def runClient (scripts : List Script) :
+    (Nat × List ((Hdrs × Ext) × Except GStatus (Hdrs × Ext))) → Nat → List CCall → List String → List String × Nat
+  | _, n, [], acc => (acc, n)
+  | s, n, k :: ks, acc =>
+    let t : TRequest CB := { metadata := k.userMd, message := (frame k.msg, (k.rhdrs, k.rext)), extensions := k.ext }
+    let (c, res) := clientCall (fun _ => true) (logged (scripted scripts)) clientMock s n k.originPrefix k.originPath k.originHasQuery k.path t
+    let line := match c.icpt.2.getLast? with
+      | none => "nolog"
+      | some l =>
+        let isaw := s!"isaw {showHdrs l.1.1} {showExt l.1.2}"
+        let dec := match l.2 with
+          | .ok (md, x) => s!"iret {showHdrs md} {showExt x}"
+          | .error st => s!"irej {showStatus st}"
+        s!"{isaw} {dec} {showSawC c.innerSaw} {showClientResult res}"
+    runClient scripts c.icpt c.inner ks (acc ++ [line])
+
+def runClientModel (c : CCase) : String :=
+  let (lines, n) := runClient c.scripts (0, []) 0 c.calls []
+  if lines.any (fun l => (l.splitOn " panic").length > 1) then "panic"
+  else String.intercalate " " (lines ++ [s!"calls {n}"])
+
+inductive ObsClient
+  | cok (md : Hdrs) (ext : Nat × Ext)
+  | cerr (st : GStatus)
+
+structure ObsCCall where
+  isawH : Hdrs
+  isawX : Nat × Ext
+  decision : Spec.Interceptor.Decision
+  iretXTotal : Nat
+  saw : Option (Request Body × Nat)
+  res : ObsClient
+
+def occall : P ObsCCall := do
+  let t ← next
+  if t != "isaw" then failure
+  let ih ← ohdrs
+  let ix ← oext
+  let t ← next
+  let (dec, tot) ← (if t == "iret" then do
+      let h ← ohdrs
+      let x ← oext
+      pure (Spec.Interceptor.Decision.accept h x.2, x.1)
+    else if t == "irej" then do
+      let code ← pnat
+      let msg ← pbytes
+      let det ← pbytes
+      let md ← ohdrs
+      pure (Spec.Interceptor.Decision.reject { code := code, message := msg, details := det, metadata := md }, 0)
+    else failure : P (Spec.Interceptor.Decision × Nat))
+  let t ← next
+  let saw ← (if t == "noinner" then pure none
+    else if t == "inner" then do
+      let m ← pbytes
+      let v ← pnat
+      let u ← pbytes
+      let h ← ohdrs
+      let x ← oext
+      let b ← obody
+      pure (some ({ method := m, version := v, uri := u, headers := h, ext := x.2, body := b }, x.1))
+    else failure : P (Option (Request Body × Nat)))
+  let t ← next
+  let res ← (if t == "cok" then do
+      let h ← ohdrs
+      let x ← oext
+      pure (ObsClient.cok h x)
+    else if t == "cerr" then do
+      let code ← pnat
+      let msg ← pbytes
+      let det ← pbytes
+      let md ← ohdrs
+      pure (ObsClient.cerr { code := code, message := msg, details := det, metadata := md })
+    else failure : P ObsClient)
+  pure { isawH := ih, isawX := ix, decision := dec, iretXTotal := tot, saw := saw, res := res }
+
+def pcobs (n : Nat) : P (List ObsCCall × Nat) := do
+  let cs ← rep occall n
+  let t ← next
+  if t != "calls" then failure
+  let k ← pnat
+  pure (cs, k)
+
+def clientClauses (k : CCall) (script : Option Script) (o : ObsCCall) : List (String × Bool) :=
+  let te := str "te"
+  let ct := str "content-type"
+  let input : List (String × Bool) :=
+    [("client-interceptor-sees-te-trailers", getAll te o.isawH == [(str "trailers", false)]),
+     ("client-interceptor-sees-grpc-content-type", getAll ct o.isawH == [(str "application/grpc", false)]),
+     ("client-interceptor-sees-user-metadata", (keys o.isawH ++ keys k.userMd).all (fun n =>
+        Spec.Interceptor.reserved n || getAll n o.isawH == getAll n k.userMd)),
+     ("client-interceptor-sees-extensions", Spec.Interceptor.extEq o.isawX.2 k.ext && o.isawX.1 == k.ext.length)]
+  match o.decision with
+  | .accept md ext =>
+    let touched : Bytes → Bool := fun n => match script with
+      | none => false
+      | some sc => sc.ops.any (Op.mentions n)
+    let acc : List (String × Bool) := match o.saw with
+      | none => [("inner-invoked", false)]
+      | some (r, total) =>
+        [("method-post", r.method == str "POST"), ("version-h2", r.version == 2),
+         ("uri-has-origin-and-path", k.originPrefix.isPrefixOf r.uri && k.path.isSuffixOf r.uri),
+         ("body-is-length-prefixed-message", r.body == { chunks := [frame k.msg], trailers := none }),
+         ("metadata-is-interceptors", Spec.Interceptor.hdrsEq r.headers md),
+         ("extensions-are-interceptors", Spec.Interceptor.extEq r.ext ext && total == o.iretXTotal),
+         ("untouched-headers-intact", Spec.Interceptor.untouchedOk touched o.isawH r.headers)]
+    -- the transport's trailers-only answer reaches the caller
+    let codeTok : Bytes := match (getAll (str "grpc-status") k.rhdrs).head? with
+      | some v => v.1
+      | none => []
+    let expectCode : Nat :=
+      if !codeTok.isEmpty && codeTok.all Ascii.isDigit && codeTok.length ≤ 2 && digitsVal codeTok ≤ 16
+         && (codeTok.length == 1 || codeTok.head? != some 48) then digitsVal codeTok else 2
+    let resp : List (String × Bool) := match o.res with
+      | .cok h x => [("transport-ok-passed-through", expectCode == 0 && Spec.Interceptor.hdrsEq h k.rhdrs
+                        && Spec.Interceptor.extEq x.2 k.rext && x.1 == k.rext.length)]
+      | .cerr st => [("transport-status-passed-through", expectCode != 0 && st.code == expectCode &&
+                        (keys st.metadata ++ keys k.rhdrs).all (fun n =>
+                          Spec.Interceptor.reserved n || getAll n st.metadata == getAll n k.rhdrs))]
+    input ++ acc ++ resp
+  | .reject st =>
+    let res : List (String × Bool) := match o.res with
+      | .cerr st' =>
+        [("caller-gets-error-status", st.code != 0), ("caller-status-code", st'.code == st.code),
+         ("caller-status-message", st'.message == st.message), ("caller-status-details", st'.details == st.details),
+         ("caller-status-metadata", (keys st'.metadata ++ keys st.metadata).all (fun n =>
+            Spec.Interceptor.reserved n || getAll n st'.metadata == getAll n st.metadata))]
+      | .cok h _ =>
+        [("caller-gets-ok-only-for-ok-status", st.code == 0),
+         ("caller-status-metadata", (keys h ++ keys st.metadata).all (fun n =>
+            Spec.Interceptor.reserved n || getAll n h == getAll n st.metadata))]
+    input ++ [("inner-not-invoked", o.saw.isNone)] ++ res
+
+def clientVerdict (c : CCase) (obs : List String) : String :=
+  if obs == ["panic"] then "fail:panic"
+  else match pcobs c.calls.length obs with
+  | some ((ocs, ncalls), []) =>
+    let n := c.scripts.length
+    let perCall := (c.calls.zip ocs).zipIdx.map (fun ((k, o), i) =>
+      clientClauses k (if n == 0 then none else c.scripts[i % n]?) o)
+    let accepts := (ocs.filter (fun o => match o.decision with
+      | .accept _ _ => true
+      | .reject _ => false)).length
+    verdict (perCall.flatten ++ [("inner-call-count", ncalls == accepts)])
+  | _ => "fail:unparseable-observation"
+
 def handle (case obs : List String) : String × String :=
-  match parseCase case with
-  | none => bad
-  | some c => (runModel c, specVerdict c obs)
+  match case with
+  | "client" :: _ =>
+    (match pccase case with
+     | some (c, []) => (runClientModel c, clientVerdict c obs)
+     | _ => bad)
+  | _ =>
+    match parseCase case with
+    | none => bad
+    | some c => (runModel c, specVerdict c obs)
 
 end DriverC12
